@@ -236,9 +236,11 @@ def main():
     if "--wave5" in args:
         SRC, NAMES, PREFIX = "/tmp/mutout5", NAMES5, "w5-"
         args.remove("--wave5")
-    if "--wave6" in args:      # names come from the agents' own name.txt files; extra checks: none
-        SRC, PREFIX = "/tmp/mutout6", "w6-"
-        args.remove("--wave6")
+    wn = [a for a in args if a.startswith("--wave") and a[6:].isdigit() and int(a[6:]) >= 6]
+    if wn:      # waves 6+: names come from the agents' own name.txt files; extra checks: none
+        k_ = wn[0][6:]
+        SRC, PREFIX = f"/tmp/mutout{k_}", f"w{k_}-"
+        args.remove(wn[0])
         import re
         NAMES = {}
         for prop in sorted(os.listdir(SRC)):
